@@ -172,7 +172,7 @@ func oasObject(fs []ioField, refPrefix string) m {
 	return o
 }
 
-func oasTypes(d *ioDoc, refPrefix string) m {
+func oasTypes(d *ioDoc, refPrefix string, shape map[string]any) m {
 	out := m{}
 	for _, t := range d.Types {
 		switch t.Kind {
@@ -187,14 +187,22 @@ func oasTypes(d *ioDoc, refPrefix string) m {
 		case "array":
 			out[t.Name] = m{"type": "array", "items": oasPrim(t.Base)}
 		default:
-			out[t.Name] = oasPrim(t.Base)
+			p := oasPrim(t.Base)
+			if t.Base == "int" && len(t.Name)%2 == 0 {
+				// a named 64-bit integer
+				p["format"] = "int64"
+				if shape != nil {
+					shape[t.Name] = "format=int64"
+				}
+			}
+			out[t.Name] = p
 		}
 	}
 	return out
 }
 
 // renderOpenAPI writes version 2 or 3; path parameters go to the path item (shared) when pathLevel is set.
-func renderOpenAPI(d *ioDoc, v3 bool, pathLevel bool) m {
+func renderOpenAPI(d *ioDoc, v3 bool, pathLevel bool, shape map[string]any) m {
 	refPrefix := "#/definitions/"
 	if v3 {
 		refPrefix = "#/components/schemas/"
@@ -273,10 +281,10 @@ func renderOpenAPI(d *ioDoc, v3 bool, pathLevel bool) m {
 	doc := m{"info": m{"title": "Generated", "version": "1.0"}, "paths": paths}
 	if v3 {
 		doc["openapi"] = "3.0.0"
-		doc["components"] = m{"schemas": oasTypes(d, refPrefix)}
+		doc["components"] = m{"schemas": oasTypes(d, refPrefix, shape)}
 	} else {
 		doc["swagger"] = "2.0"
-		doc["definitions"] = oasTypes(d, refPrefix)
+		doc["definitions"] = oasTypes(d, refPrefix, shape)
 		doc["consumes"] = []any{"application/json"}
 		doc["produces"] = []any{"application/json"}
 	}
@@ -1181,7 +1189,7 @@ func interopImport(w *tr.Writer, sc *ioScenario, logger *logrus.Logger) {
 			if sc.PathLevel != "" {
 				pl = sc.PathLevel == "yes"
 			}
-			content, err = encodeDoc(renderOpenAPI(&sc.Doc, sc.Fmt == "openapi3", pl), sc.Enc)
+			content, err = encodeDoc(renderOpenAPI(&sc.Doc, sc.Fmt == "openapi3", pl, shape), sc.Enc)
 		case "xsd":
 			ext, content = ".xsd", renderXSD(&sc.Doc)
 		default:
